@@ -350,6 +350,12 @@ std::unique_ptr<IStack> make_stack(const std::vector<Words> & cfgs, const Words 
         }
         // documented storage length: product of the extents (row-major), round_pow2(max extent)^N (curves)
         uint64_t len = cells;
+        if constexpr (is_strided<St>::value) {
+            // optional (N+1)-th entry: extra storage cells beyond the grid (a row-major field may own more than it uses)
+            if (ext.size() > N) {
+                len += ext[N];
+            }
+        }
         if constexpr (!is_strided<St>::value) {
             uint64_t side = 1;
             while (side < mx) {
